@@ -4,6 +4,7 @@ import (
 	"encoding/json"
 	"fmt"
 	"sort"
+	"strings"
 	"verif.local/simrt"
 
 	pt "github.com/weedbox/pokertable"
@@ -559,6 +560,7 @@ func (m *tableMon) audit() {
 	}
 	st := tb.State
 	now := c.NowMs()
+	m.checkEnginePanics(tb)
 	quietMember := w.memberInFlight == 0
 	// C03: persistent disagreement between table and seat manager
 	if quietMember {
@@ -747,5 +749,46 @@ func (m *tableMon) atHorizon() {
 	}
 	if h != nil && h.settled != nil {
 		c.Judged("C11.hand_finishes")
+	}
+}
+
+// checkEnginePanics: a panic in one of the engine's own goroutines (timer callbacks, ready-group
+// completions, the state updater) ends the whole process in a deployment - no recover exists in the
+// library. The simulator recovers it per task so that the run can be examined; the liveness
+// properties then judge it: a hand in progress can no longer finish (C11), between hands the table
+// can no longer deal on (C08).
+func (m *tableMon) checkEnginePanics(tb *pt.Table) {
+	c := m.c
+	ps := c.Sch.Panics()
+	for m.panicsSeen < len(ps) {
+		p := ps[m.panicsSeen]
+		m.panicsSeen++
+		fn := ""
+		for _, fr := range strings.Split(p.Stack, " | ") {
+			if strings.HasPrefix(fr, "github.com/weedbox/pokertable.") {
+				fn = strings.TrimPrefix(fr, "github.com/weedbox/pokertable.")
+				if i := strings.Index(fn, "("); i > 0 && !strings.HasPrefix(fn, "(") {
+					fn = fn[:i]
+				} else if strings.HasPrefix(fn, "(") {
+					// (*tableEngine).playersAutoIn.func2(0x...)
+					if j := strings.LastIndex(fn, "("); j > 0 {
+						fn = fn[:j]
+					}
+				}
+				break
+			}
+		}
+		if fn == "" {
+			continue // not in the engine's code (harness task): reported as infrastructure trouble elsewhere
+		}
+		h := m.cur
+		inHand := h != nil && h.settled == nil
+		facts := map[string]any{"in": fn, "dealt_in_player_left_mid_hand": inHand && h.leftMidHand, "external_pause_or_close_request": m.extTainted != ""}
+		c.Logf("ENGINE PANIC in %s (task %s): %s", fn, p.Task, p.Value)
+		if inHand {
+			c.Viol("C11", "C11.engine_goroutine_panicked", facts, "hand %d in progress: the engine goroutine %s panicked in %s: %s (a process crash in a deployment: the hand cannot finish)", h.k, p.Task, fn, p.Value)
+		} else {
+			c.Viol("C08", "C08.engine_goroutine_panicked", facts, "between hands: the engine goroutine %s panicked in %s: %s (a process crash in a deployment: the table cannot deal on)", p.Task, fn, p.Value)
+		}
 	}
 }
